@@ -18,6 +18,18 @@ CHECKS = {
  "C04": dict(cat="model_checking", engine="simcluster", technique="explicit-state DFS of the real controller with purge/transmit/fetch monitors",
              text="Monitors on every purge/transmit/fetch of every explored schedule: consumers done, requested value delivered, no unanswered transfer/fetch from the purged host, source holds the dataset, nothing needed after its purge.",
              note="'unanswered' = reply event not yet delivered to the controller; reference cluster model as in C01.", ref="DESIGN.md 3 C04"),
+ "C16": dict(cat="exploration", engine="enumeration", technique="bounded-exhaustive enumeration of all DAGs (n<=5/6) x 4 variants against a networkx reference model",
+             text="Every edge set over <=5 (quick) / <=6 (thorough) labelled tasks in four variants goes through the real precompute() and is compared field by field with a networkx reference (components, sources, edge projections, depth, value, nearest-common-descendant distances).",
+             note="Only the Python fallback of nearest_common_descendant is reachable (coptrs not installed); DAGs above 6 tasks outside the bound.", ref="DESIGN.md 3 C16"),
+ "C17": dict(cat="exploration", engine="enumeration", technique="bounded-exhaustive enumeration of field-alphabet products per message class through the real encoders/decoders",
+             text="Per message class the full product of boundary alphabets (sizes at and above 2^32, empty/long strings, out-of-domain values) through the real shm codec, pickle+multipart framing into the real Listener, controller reports, gateway client encoder/decoder pairs and JobInstance JSON; structural comparison.",
+             note="Exhaustive over the alphabets, not over 64-bit domains; UDP datagram size limits are outside the codec.", ref="DESIGN.md 3 C17"),
+ "C18": dict(cat="model_checking", engine="bfs", technique="explicit-state BFS to closure over report/submit histories of the real JobRouter/handle_fe/handle_controller, all queries checked in every state against a reference dict",
+             text="All reachable states of the gateway for 2 (quick) / 3 (thorough) jobs under arbitrary order and duplication of progress/result/shutdown reports are enumerated to closure; in every state every frontend query is answered by the real handler and compared with the reference.",
+             note="Spawning stubbed; fake zmq sockets; reports after shutdown are unread by construction of the gateway.", ref="DESIGN.md 3 C18"),
+ "C19": dict(cat="exploration", engine="enumeration", technique="bounded-exhaustive enumeration of callables x bound values x edge endpoints x builder call interleavings with snapshot comparison",
+             text="Every combination of the callable/value/edge alphabets is built on persistent builders; build() must return a well-formed job or a list of problems and never raise; values must appear under their positions/names; all earlier builders and jobs are re-inspected at the end.",
+             note="Annotation alphabet = builtin types or absent.", ref="DESIGN.md 3 C19"),
 }
 
 def main():
@@ -50,6 +62,10 @@ def main():
         "engines": [
             {"name": "simcluster", "path": "vf/simcluster.py", "serves_properties": ["C01", "C02", "C03", "C04"],
              "kind_free_text": "stateless DFS with prefix replay + state-hash pruning over the real controller.run against a reference cluster behind the Bridge interface"},
+            {"name": "bfs", "path": "vf/checks", "serves_properties": ["C18"],
+             "kind_free_text": "explicit-state BFS over operation histories (fresh real objects rebuilt per history, canonical state hashing)"},
+            {"name": "enumeration", "path": "vf/checks", "serves_properties": ["C16", "C17", "C19"],
+             "kind_free_text": "bounded-exhaustive input/program enumeration against a reference model"},
         ],
         "checks": checks,
         "not_applicable": na,
